@@ -11,7 +11,7 @@
 //   (system after finalize(); H = the harness's own homogeneity test: weights and strengths times 2 and times 1/2 must give
 //    exactly 2 / 0.5 times every triplet and rhs entry before finalize())
 // SOLVE kind tol maxit <ASM body>   kind: 0 solveStar(params) 1 solve 2 solveWithPenalty 3 solveStar(pl) 4 solveB2B(pl,tg,st)
-//   result: for each factor in 1 2 0.25 1024 2.5 7: the result vector as float bit patterns, separated by " | "
+//   result: for each factor in 1 2 0.25 1024 2.5 7 2^-20 2^-24: the result vector as float bit patterns, separated by " | "
 // PLACE netmodel seed maxsteps W nrows rowh ncells {w fixed x y}* nnets { np w4 {cell xo yo}* }*
 //   result: per factor in 1 2 0.5 2.5 7 (weights and penalty.initialValue times the factor):
 //     "T x y x y ... ;" per callback and at the end; then " # W " netWeight read back from x/yTopology at factor 1
@@ -114,12 +114,12 @@ static void runAsm(Rd &r) {
   printf("%s\n", out.c_str());
 }
 
-static const float kSolveFactors[6] = {1.0f, 2.0f, 0.25f, 1024.0f, 2.5f, 7.0f};
+static const float kSolveFactors[8] = {1.0f, 2.0f, 0.25f, 1024.0f, 2.5f, 7.0f, 1.0f / 1048576.0f, 1.0f / 16777216.0f};   // the last two: 2^-20, 2^-24 (tiny common factors, e.g. weights normalised to sum to one)
 static void runSolve(Rd &r) {
   int kind = (int)r.nx(); float tol = r.q(); int maxit = (int)r.nx();
   Body b = readBody(r);
   std::string out;
-  for (int k = 0; k < 6; ++k) {
+  for (int k = 0; k < 8; ++k) {
     float f = kSolveFactors[k];
     NetModel nm = buildNM(b, f);
     std::vector<float> st = b.st; for (auto &s : st) s *= f;
